@@ -230,6 +230,7 @@ class SeriesBody:
         self.fn = fn
         self.methods = methods or {}
         self.depth = 0
+        self.pieces: List[tuple] = []      # small-angle shortcuts: (bound, other conditions, slope expression, node)
         params = [a.arg for a in fn.args.args]
         if params and params[0] == "self":
             params = params[1:]
@@ -280,8 +281,38 @@ class SeriesBody:
                 if top:
                     self.ret, self.ret_parity, self.ret_node = v[0].reduce(), v[1], st
                 return v
+            if isinstance(st, ast.If) and top and not st.orelse and len(st.body) == 1 and isinstance(st.body[0], ast.Return) and st.body[0].value is not None:
+                piece = self._small_angle_piece(st)
+                if piece is not None:
+                    self.pieces.append(piece)
+                    continue
             self.problem = f"statement `{core.src(st)[:60]}` is not a plain assignment, helper call or return"
             return None
+        return None
+
+    def _small_angle_piece(self, st: ast.If):
+        """`if abs(phi) < T [and other conditions]: return phi * X`  ->  (T expression, other conditions, X expression, node);
+        None if the statement is not of that form"""
+        tests = st.test.values if isinstance(st.test, ast.BoolOp) and isinstance(st.test.op, ast.And) else [st.test]
+        bound, others = None, []
+        for t in tests:
+            if isinstance(t, ast.Compare) and len(t.ops) == 1 and isinstance(t.ops[0], (ast.Lt, ast.LtE)) and isinstance(t.left, ast.Call) \
+                    and core.src(t.left.func) in ("abs", "math.fabs") and len(t.left.args) == 1 and isinstance(t.left.args[0], ast.Name) \
+                    and t.left.args[0].id == self.phi:
+                bound = t.comparators[0]
+            else:
+                others.append(t)
+        if bound is None:
+            return None
+        e = st.body[0].value
+        while isinstance(e, ast.Call) and core.src(e.func) == "cast" and len(e.args) == 2:
+            e = e.args[1]
+        if not (isinstance(e, ast.BinOp) and isinstance(e.op, ast.Mult)):
+            return None
+        for a, b in ((e.left, e.right), (e.right, e.left)):
+            if isinstance(a, ast.Name) and a.id == self.phi and not any(isinstance(n, ast.Name) and n.id == self.phi for n in ast.walk(b)) \
+                    and not any(isinstance(n, ast.Call) and core.src(n.func) in ("math.sin", "math.cos", "sin", "cos") for n in ast.walk(b)):
+                return (bound, others, b, st)
         return None
 
     def _inline(self, name: str, args: List[ast.expr]):
@@ -565,6 +596,41 @@ def run(ctx):
                     else:
                         ctx.unk("C15.1", f"_apply_coefficients vs the sine series (with {name})", where,
                                 f"evaluator - series = {res!r}; crude bound {bound:.2e} exceeds {TABLE_TOL} but no witness latitude found")
+    # ---- C15.9: shortcuts that replace the series by a linear function of phi near the equator ------------------------------
+    for bound, others, slope, node in sb.pieces:
+        T = fold_const(bound)
+        if T is None and isinstance(bound, ast.Name):
+            for n in tree.body:
+                if isinstance(n, ast.Assign) and any(isinstance(t, ast.Name) and t.id == bound.id for t in n.targets):
+                    T = fold_const(n.value)
+        w9 = core.loc(AUTH, node)
+        if T is None or not (g2a and a2g):
+            ctx.unk("C15.9", f"_apply_coefficients: linear shortcut for |phi| < {core.src(bound)}", w9, "threshold or tables not determined")
+            continue
+        # are the other conditions of the shortcut satisfied for the tables that forward/inverse pass?
+        feasible = True
+        for cnd in others:
+            ok_c = False
+            if isinstance(cnd, ast.Compare) and len(cnd.ops) == 1 and isinstance(cnd.ops[0], ast.In) and isinstance(cnd.left, ast.Name) \
+                    and cnd.left.id == sb.C and isinstance(cnd.comparators[0], ast.Name):
+                for n in tree.body:
+                    if isinstance(n, ast.Assign) and any(isinstance(t, ast.Name) and t.id == cnd.comparators[0].id for t in n.targets) \
+                            and isinstance(n.value, ast.Dict):
+                        keys = {k.id for k in n.value.keys if isinstance(k, ast.Name)}
+                        ok_c = {"GEODETIC_TO_AUTHALIC", "AUTHALIC_TO_GEODETIC"} <= keys
+            feasible = feasible and ok_c
+        emin = best_linear_error(g2a, T)
+        if emin > 1e-10 + TABLE_TOL and feasible:
+            ctx.bad("C15.9", f"_apply_coefficients returns a linear function of phi for |phi| < {T:g}", w9,
+                    f"whatever the slope `{core.src(slope)}` is, a linear function misses sum C_k sin(2k phi) by at least {emin:.3e} rad somewhere in that "
+                    f"interval (best uniform linear fit of the geodetic->authalic series; cubic term ~ {sum(c * (2 * (k + 1)) ** 3 / 6 for k, c in enumerate(g2a)):.2e} * phi^3): "
+                    f"the 1e-10 accuracy clause fails near latitude {math.degrees(T):.2f} deg")
+        elif emin <= 1e-11:
+            ctx.ok("C15.9", f"_apply_coefficients: linear shortcut for |phi| < {T:g} can stay within the accuracy clause", w9,
+                   f"best uniform linear fit error {emin:.1e} rad; the slope itself is not verified")
+        else:
+            ctx.unk("C15.9", f"_apply_coefficients: linear shortcut for |phi| < {T:g}", w9,
+                    f"best possible error {emin:.2e} rad; " + ("other conditions of the shortcut are not decided" if not feasible else "close to the clause"))
     # ---- C15.3 wiring ------------------------------------------------------------------------------------------
     def passes(method: str, table: str):
         m = ctx.sources.func(AUTH, method, "AuthalicProjection")
@@ -638,6 +704,25 @@ def check_result_memo(ctx, methods: Dict[str, ast.FunctionDef]):
                             f"direction returns the remembered value of the wrong table (error up to |C_1| = 2.2e-3 rad)")
                 else:
                     ctx.ok("C15.8", f"AuthalicProjection.{name}: result memo self.{root.attr} keyed by everything the result depends on", where, core.src(n))
+
+
+def best_linear_error(lit: List[float], T: float) -> float:
+    """min over K of max_{|phi| <= T} | sum_k lit_k sin(2(k+1) phi) - K phi |  (the series is odd, so [0, T] suffices)"""
+    xs = [T * i / 2000 for i in range(1, 2001)]
+    gs = [sum(c * math.sin(2 * (k + 1) * x) for k, c in enumerate(lit)) for x in xs]
+
+    def err(K: float) -> float:
+        return max(abs(g - K * x) for g, x in zip(gs, xs))
+    lo = min(gs[-1] / xs[-1], gs[0] / xs[0])
+    hi = max(gs[-1] / xs[-1], gs[0] / xs[0])
+    lo, hi = lo - abs(hi - lo) - 1e-12, hi + abs(hi - lo) + 1e-12
+    for _ in range(200):
+        m1, m2 = lo + (hi - lo) / 3, hi - (hi - lo) / 3
+        if err(m1) < err(m2):
+            hi = m2
+        else:
+            lo = m1
+    return err((lo + hi) / 2)
 
 
 def fold_const(e: ast.expr) -> Optional[float]:
